@@ -231,6 +231,9 @@ def run_case(case):
         # zero-nanosecond files for touch, one of them replaced later by a non-zero-nanosecond version
         fs.write(a.disks[0], b"zns-1", A.gen_bytes(rng, 1200), mtime_ns=(A.EPOCH0 - 1000) * 10**9)
         fs.write(a.disks[0], b"zns-2", A.gen_bytes(rng, 1300), mtime_ns=(A.EPOCH0 - 900) * 10**9)
+        # zero-length files: later replaced by symbolic links pointing at other files
+        fs.write(a.disks[0], b"zero-len-1", b"")
+        fs.write(a.disks[-1], b"zero-len-2", b"")
         r = a.cmd("sync", "-E", "-Z")
         if r.rc != 0:
             raise scen.CaseError("setup sync failed")
@@ -242,6 +245,18 @@ def run_case(case):
         st = fs.clone_entries()
         if "damaged" in state_kind:
             scen.damage_data_disk(a, fs, rng, rng.choice(a.disks), rng.choice(["delete", "flip", "truncate", "rmlinks"]), st)
+        if state_kind in ("damaged", "unsynced+damaged", "unsynced") and rng.random() < 0.6:
+            # where an empty file is recorded there is now a symbolic link: to a healthy non-empty file of the array, and to a
+            # path that does not exist (inside the array root, where the snapshot sees anything that gets created)
+            victims = [(d_, s_) for (d_, s_) in fs.files() if len(fs.entries[d_][s_][1]) > 0 and os.path.isfile(fs.path(d_, s_))]
+            p1, p2 = fs.path(a.disks[0], b"zero-len-1"), fs.path(a.disks[-1], b"zero-len-2")
+            if victims and os.path.isfile(p1) and not os.path.islink(p1):
+                os.unlink(p1)
+                os.symlink(fs.path(*rng.choice(victims)), p1)
+                res["counters"]["empty_files_replaced_by_links"] = res["counters"].get("empty_files_replaced_by_links", 0) + 1
+            if os.path.isfile(p2) and not os.path.islink(p2):
+                os.unlink(p2)
+                os.symlink(os.path.join(os.fsencode(a.root), b"created-through-dangling-link"), p2)
         if state_kind == "lostdisk":
             scen.wipe_disk(a, rng.choice(a.disks))
         if state_kind == "lostparity":
